@@ -11,4 +11,5 @@ PROPERTY PFrame
 PROPERTY PThrottle
 PROPERTY PLine
 PROPERTY PQuiet
+PROPERTY PCurrent
 PROPERTY AFirst
